@@ -66,9 +66,10 @@ pub fn kruger(xs: &[f64], ys: &[f64]) -> Reference {
             m_sh[i] = Bf::zero();
         } else {
             let prod = s[i - 1].mul(&s[i]);
-            // only the SIGN of slope01*slope12 is used by the construction: it may overflow (to +inf), but it must
-            // not underflow to zero, and the reciprocals / the mean must stay in range
-            dom &= (prod.is_zero() || prod.0.top() >= -900) && ok(&s[i - 1].recip()) && ok(&s[i].recip());
+            // slope01*slope12 is an intermediate of the construction (the library uses its sign; the classic form
+            // 2ab/(a+b) of the harmonic mean uses its value): it must neither overflow nor underflow, and the
+            // reciprocals / the mean must stay in range
+            dom &= ok(&prod) && ok(&s[i - 1].recip()) && ok(&s[i].recip());
             m[i] = Bf::from_i64(2).div(&s[i - 1].recip().add(&s[i].recip()));
             m_sh[i] = m[i].abs();
         }
@@ -136,7 +137,7 @@ pub fn knots_strategy(tier: Tier) -> BoxedStrategy<Case> {
         2 => vec((1i32..=5).prop_map(|i| i as f64), 2..48),
     ];
     let pattern = 0u8..13;
-    (prop_oneof![9 => 3usize..=nmax, 1 => (nmax + 1)..=nlong], offsets, steps, pattern, vec(gen::moderate(12), 48), (prop_oneof![8 => -20i32..=20, 2 => -250i32..=250, 1 => -520i32..=520], gen::scaled(-6, 6), gen::moderate(8)), gen::common_scale(100))
+    (prop_oneof![9 => 3usize..=nmax, 1 => (nmax + 1)..=nlong], offsets, steps, pattern, vec(gen::moderate(12), 48), (prop_oneof![8 => -20i32..=20, 2 => -250i32..=250, 1 => -440i32..=440], gen::scaled(-6, 6), gen::moderate(8)), gen::common_scale(100))
         .prop_map(|(n, x0, steps, pat, rnd, (scale_e, slope, icpt), xscale)| {
             let mut xs = Vec::with_capacity(n);
             let mut x = x0;
@@ -306,7 +307,7 @@ impl Prop for C04 {
         "C04"
     }
     fn rule(&self) -> String {
-        "case = knot sequence of 3..=10 (thorough 48) knots; abscissae strictly increasing by construction (x_(i+1) = max(x_i+step, next_up(x_i))): offsets {0, ±1e3, ±1e6, ±1e9, random}, steps uniform / wild 2^±10 / one-ulp / integer; ordinates monotone, oscillating, plateaued, nearly collinear (line + few-ulp noise), exactly collinear, non-increasing with flats, single peak, few distinct ordinates (plateaus of >=3 equal values, runs of +0.0/-0.0), polylines (exactly collinear runs starting at interior kinks), secant slopes in exact geometric progression, random; abscissae additionally times a common power of two 2^k (k in ±100, 30% of cases); 1 case in 10 has 11..140 (thorough ..300) knots; scales 2^±20, 2^±250 (2/11) or 2^±520 (1/11). Oracle: the exact Kruger construction in 384-bit arithmetic with exact sign decisions, and its magnitude shadows (every subtraction replaced by an addition of magnitudes). Checked: (1) n-1 pieces, end_i bit-identical to x_(i+1); (2) every returned cubic, evaluated EXACTLY at both of its knots, is within 64u·(Ā+B̄|x|+C̄x²+D̄|x|³) of the ordinate, and through Evaluate::evaluate with the C01 bound added; (3) at every interior knot the exact derivatives of the two adjacent returned cubics agree with each other and with the exact knot slope (harmonic mean or 0), at the end knots with 3/2·Δ - 1/2·m, within 64u·(B̄+2C̄|x|+3D̄x²); the same through derivative().evaluate(). Domain: every intermediate of the construction within 2^±900 (else counted as excluded). Non-trivial: not exactly collinear and >= 4 knots.".into()
+        "case = knot sequence of 3..=10 (thorough 48) knots; abscissae strictly increasing by construction (x_(i+1) = max(x_i+step, next_up(x_i))): offsets {0, ±1e3, ±1e6, ±1e9, random}, steps uniform / wild 2^±10 / one-ulp / integer; ordinates monotone, oscillating, plateaued, nearly collinear (line + few-ulp noise), exactly collinear, non-increasing with flats, single peak, few distinct ordinates (plateaus of >=3 equal values, runs of +0.0/-0.0), polylines (exactly collinear runs starting at interior kinks), secant slopes in exact geometric progression, random; abscissae additionally times a common power of two 2^k (k in ±100, 30% of cases); 1 case in 10 has 11..140 (thorough ..300) knots; scales 2^±20, 2^±250 (2/11) or 2^±440 (1/11). Oracle: the exact Kruger construction in 384-bit arithmetic with exact sign decisions, and its magnitude shadows (every subtraction replaced by an addition of magnitudes). Checked: (1) n-1 pieces, end_i bit-identical to x_(i+1); (2) every returned cubic, evaluated EXACTLY at both of its knots, is within 64u·(Ā+B̄|x|+C̄x²+D̄|x|³) of the ordinate, and through Evaluate::evaluate with the C01 bound added; (3) at every interior knot the exact derivatives of the two adjacent returned cubics agree with each other and with the exact knot slope (harmonic mean or 0), at the end knots with 3/2·Δ - 1/2·m, within 64u·(B̄+2C̄|x|+3D̄x²); the same through derivative().evaluate(). Domain: every intermediate of the construction within 2^±900 (else counted as excluded). Non-trivial: not exactly collinear and >= 4 knots.".into()
     }
     fn assumptions(&self) -> Vec<String> {
         vec!["K = 64 (DESIGN.md §3.3) is the harness's reading of 'a small multiple of 2^-53 times the magnitudes of the intermediate terms'".into()]
